@@ -62,13 +62,18 @@ def program_source(nodes: List[Dict[str, Any]], task_deps: List[Any], task: Dict
         # an annotated parameter whose conversion builds a MUTABLE object from a scalar wire value ('1,2' -> model with a list):
         # every execution must get an object of its own
         params.append("box: Box = None")
+    if task.get("bag"):
+        # an un-annotated parameter that receives a nested mutable value (a dict holding a list): nothing converts or copies it
+        params.append("bag=None")
     tid = "ctx.message.task_id, ctx.message.args[0] if ctx.message.args else None, ctx.message.labels.get('who')" if own_ctx else "None, me, None"
     body = (f"    LOG('enter', 'task', {tid})\n"
             "    try:\n"
             + ("        if me == 0 and 'X-Taskiq-requeue' not in ctx.message.labels:\n            LOG('requeue', 'task')\n            await ctx.requeue()\n"
                if task.get("requeue_first") and own_ctx else "")
             + ("        if box is not None:\n            box.items.append(me)\n" if task.get("box") else "")
+            + ("        if bag is not None:\n            bag['items'].append('x')\n" if task.get("bag") else "")
             + "        if slp:\n            await asyncio.sleep(slp)\n"
+            + ("        if bag is not None:\n            LOG('bag', 'task', list(bag['items']))\n" if task.get("bag") else "")
             + ("        if box is not None:\n            LOG('box', 'task', list(box.items))\n" if task.get("box") else "")
             + ("        LOG('echo', 'task', ctx.message.task_id, ctx.message.args[0] if ctx.message.args else None, ctx.message.labels.get('who'))\n"
                "        LOG('labels', 'task', dict(ctx.message.labels))\n" if own_ctx else ""))
